@@ -474,7 +474,7 @@ func TestVerif_C18(t *testing.T) {
 				res.distinct(fmt.Sprintf("bytes/%d", len(doc)/20))
 			}
 		}
-		if res.nViol() > 200 {
+		if res.giveUp(200) {
 			break
 		}
 	}
